@@ -124,6 +124,7 @@ type zzStream struct {
 	whole  bool // hand out as much as fits (no arbitrary chunking)
 	partial int // with whole: number of reads that may still return an arbitrary smaller chunk
 	coarse  bool // partial chunk sizes come from {1, 2, 5, max-1} instead of every size
+	block   chan struct{} // non-nil: at the end a read blocks until this channel is closed (socket closed), then fails
 }
 
 var zzErrCut = &net.OpError{Op: "read", Err: io.ErrClosedPipe}
@@ -132,6 +133,10 @@ func (s *zzStream) Read(p []byte) (int, error) {
 	s.reads++
 	rem := len(s.data) - s.pos
 	if rem == 0 || len(p) == 0 {
+		if s.block != nil {
+			<-s.block // a reader stuck in Read is released only by closing the socket
+			return 0, zzErrCut
+		}
 		if s.errEOF {
 			return 0, io.EOF
 		}
@@ -171,14 +176,18 @@ func (s *zzStream) Read(p []byte) (int, error) {
 
 // zzSink captures what the connection writes; it fails from write number failAt on (0 = never).
 type zzSink struct {
-	out    []byte
-	writes int
-	failAt int
+	out      []byte
+	writes   int
+	failAt   int
+	failWhen func() bool // non-nil: a write fails once this holds
 }
 
 func (s *zzSink) Write(p []byte) (int, error) {
 	s.writes++
 	if s.failAt != 0 && s.writes >= s.failAt {
+		return 0, zzErrCut
+	}
+	if s.failWhen != nil && s.failWhen() {
 		return 0, zzErrCut
 	}
 	s.out = append(s.out, p...)
@@ -198,6 +207,9 @@ func (c *zzNetConn) Read(p []byte) (int, error)  { return c.in.Read(p) }
 func (c *zzNetConn) Write(p []byte) (int, error) { return c.out.Write(p) }
 func (c *zzNetConn) Close() error {
 	c.closes++
+	if c.in.block != nil && c.closes == 1 {
+		close(c.in.block)
+	}
 	if h := c.onClose; h != nil {
 		c.onClose = nil
 		h()
